@@ -1,0 +1,8 @@
+//go:build !verif
+
+package badgerstore
+
+// Simulation hook. Without the verif build tag it is empty and inlined away;
+// see verif_on.go.
+
+func simAt(point, arg string) {}
